@@ -41,3 +41,15 @@ Proof.
   apply scribble_out; [apply dead_bytes_length|exact Hs|]. rewrite Z2Nat.id by lia. lia.
 Qed.
 
+
+(* erase(first, first): the empty range - nothing is destroyed, nothing moves, no event, the
+   vector is the very same record; every list, every position *)
+Theorem erase_empty_range_identity L v i : erase_range L v i i = (v, []).
+Proof.
+  unfold erase_range. rewrite Z.sub_diag. cbn [Z.to_nat destruct_range].
+  assert (E0 : (if all_dtriv L then (v, @nil ev) else (v, [])) = (v, [])) by (destruct (all_dtriv L); reflexivity).
+  rewrite E0. rewrite Z.eqb_refl, andb_false_r. cbn [negb app]. rewrite Z.sub_0_r.
+  f_equal. unfold resize, vsize. destruct (has_varying L).
+  - rewrite Z.ltb_irrefl. reflexivity.
+  - destruct v; reflexivity.
+Qed.
